@@ -427,6 +427,9 @@ pub struct CallsScenario {
     pub serials: Vec<u32>,
     /// connections may also end by their task being dropped (the broker notices on its next send)
     pub crash_points: bool,
+    /// the owner has a second service on the same object (a caller serial released by an abort
+    /// can be re-used for a call to the other service while the first service goes away)
+    pub two_services: bool,
 }
 
 impl Scenario for CallsScenario {
@@ -434,12 +437,15 @@ impl Scenario for CallsScenario {
         "calls".into()
     }
     fn params(&self) -> serde_json::Value {
-        json!({"versions_owner_callerA_callerB_stranger": self.minors, "depth": self.depth, "caller_serials": self.serials, "max_call_entries": self.max_calls, "crash_points": self.crash_points})
+        json!({"versions_owner_callerA_callerB_stranger": self.minors, "depth": self.depth, "caller_serials": self.serials, "max_call_entries": self.max_calls, "crash_points": self.crash_points, "two_services": self.two_services})
     }
     fn prelude(&self) -> Vec<Action> {
         let mut v: Vec<Action> = self.minors.iter().map(|m| connect(*m)).collect();
         v.push(send(0, create_object(1, obj_uuid(1))));
         v.push(send(0, create_service(2, sym::cid(IdKind::Obj, 0), svc_uuid(1), 1)));
+        if self.two_services {
+            v.push(send(0, create_service(3, sym::cid(IdKind::Obj, 0), svc_uuid(2), 1)));
+        }
         v
     }
     fn max_depth(&self) -> usize {
